@@ -62,6 +62,24 @@ func writeAccepted(r *ring.Ring, key uint32, ack map[string]bool, wop ring.Opera
 	return err == nil, called
 }
 
+// writeAcceptedBySet drives the replication set's own executor (ReplicationSet.Do, no delay) with acknowledgements
+// exactly from the instances in ack: what a caller that looked the set up itself (Ring.GetWithOptions) runs.
+func writeAcceptedBySet(W ring.ReplicationSet, ack map[string]bool) (bool, []string) {
+	var mu sync.Mutex
+	var called []string
+	_, err := W.Do(context.Background(), 0, func(_ context.Context, d *ring.InstanceDesc) (interface{}, error) {
+		mu.Lock()
+		called = append(called, d.Id)
+		mu.Unlock()
+		if ack[d.Id] {
+			return d.Id, nil
+		}
+		return nil, errReplica
+	})
+	sort.Strings(called)
+	return err == nil, called
+}
+
 // readAccepted drives a real DoUntilQuorum over the replication set with answers
 // exactly from the instances in ans. Returns acceptance and the ids whose
 // results were returned.
@@ -258,7 +276,17 @@ func TestC02(t *testing.T) {
 				if (uint64(key)+uint64(c.Idx))%3 == 0 {
 					wop = ring.WriteNoExtend
 				}
-				W, errW := r.Get(key, wop, nil, nil, nil)
+				var W ring.ReplicationSet
+				var errW error
+				viaOptions := (uint64(key)+uint64(c.Idx))%4 == 1
+				if viaOptions {
+					// the options entry point with the replication factor left at its default; such a caller runs the
+					// returned set's own executor
+					W, errW = r.GetWithOptions(key, wop)
+					run.Count("write_sets_through_GetWithOptions", 1)
+				} else {
+					W, errW = r.Get(key, wop, nil, nil, nil)
+				}
 				if errW != nil {
 					run.Count("write_set_failed", 1)
 					continue
@@ -279,7 +307,13 @@ func TestC02(t *testing.T) {
 						al = append(al, W.Instances[i].Id)
 					}
 					sort.Strings(al)
-					ok, called := writeAccepted(r, key, A, wop)
+					var ok bool
+					var called []string
+					if viaOptions {
+						ok, called = writeAcceptedBySet(W, A)
+					} else {
+						ok, called = writeAccepted(r, key, A, wop)
+					}
 					synctest.Wait()
 					if !ok && si >= nMinimal {
 						continue // fewer acknowledgements than the tolerance permits: rejected, as it should be
